@@ -128,14 +128,11 @@ Proof. destruct C as [[x y] z]. unfold vsum.
   - rewrite <- E. apply lsum_ext. intros b. destruct (f b) as [[p q] r]. ring.
   - rewrite <- E. apply lsum_ext. intros b. destruct (f b) as [[p q] r]. ring. Qed.
 
+Lemma lsum_plus {A} (f g : A -> R) l : lsum (map (fun x => f x + g x) l) = lsum (map f l) + lsum (map g l).
+Proof. induction l as [|a l IH]; cbn [map]; [unfold lsum; cbn; lra|]. rewrite !lsum_cons, IH. lra. Qed.
 Lemma vsum_add {A} (f g : A -> Vec3 R) l : vsum (fun b => v3_add ROps (f b) (g b)) l = v3_add ROps (vsum f l) (vsum g l).
-Proof. unfold vsum. vunf. teq.
-  - rewrite <- (Rmult_1_l (lsum (map (fun b => v3_0 (f b)) l))), <- (Rmult_1_l (lsum (map (fun b => v3_0 (g b)) l))), <- lsum_lin.
-    apply lsum_ext. intros b. destruct (f b) as [[? ?] ?], (g b) as [[? ?] ?]. cbn. ring.
-  - rewrite <- (Rmult_1_l (lsum (map (fun b => v3_1 (f b)) l))), <- (Rmult_1_l (lsum (map (fun b => v3_1 (g b)) l))), <- lsum_lin.
-    apply lsum_ext. intros b. destruct (f b) as [[? ?] ?], (g b) as [[? ?] ?]. cbn. ring.
-  - rewrite <- (Rmult_1_l (lsum (map (fun b => v3_2 (f b)) l))), <- (Rmult_1_l (lsum (map (fun b => v3_2 (g b)) l))), <- lsum_lin.
-    apply lsum_ext. intros b. destruct (f b) as [[? ?] ?], (g b) as [[? ?] ?]. cbn. ring. Qed.
+Proof. unfold vsum. cbn [v3_add nadd ROps]. teq; rewrite <- lsum_plus; apply lsum_ext; intros b;
+  destruct (f b) as [[? ?] ?], (g b) as [[? ?] ?]; reflexivity. Qed.
 
 Lemma vsum_ext {A} (f g : A -> Vec3 R) l : (forall b, f b = g b) -> vsum f l = vsum g l.
 Proof. intros E. unfold vsum. teq; apply lsum_ext; intros b; rewrite E; reflexivity. Qed.
@@ -149,7 +146,7 @@ Proof.
   set (F := fun b : bodyR => v3_add ROps (sym_mulv ROps (centralInertia ROps b) (fst (g_V b)))
                      (v3_cross ROps (massCenterInGround ROps b) (v3_scale ROps (g_m b) (stationVel ROps b)))).
   set (L := fun b : bodyR => v3_scale ROps (g_m b) (stationVel ROps b)).
-  rewrite (vsum_ext _ (fun b => v3_add ROps (F b) (v3_cross ROps (v3_neg ROps C) (L b)))).
+  match goal with |- _ = vsum ?f bs => rewrite (vsum_ext f (fun b => v3_add ROps (F b) (v3_cross ROps (v3_neg ROps C) (L b)))) end.
   - rewrite vsum_add, vsum_cross_const. reflexivity.
   - intros b. unfold F, L. destruct C as [[cx cy] cz]. dbody b. c15unf. teq; ring. Qed.
 
